@@ -141,17 +141,17 @@ Proof.
     destruct Hy as [_ Hy]. apply negb_true_iff. exact Hy.
 Qed.
 
-Lemma init_loop_fits cfg l force n : forall k negotiated b,
-  b < n -> todo l negotiated < k -> fits b (init_loop k n cfg l force negotiated).
+Lemma init_loop_fits cfg l force n : forall k negotiated ready b,
+  b < n -> todo l negotiated < k -> fits b (init_loop k n cfg l force negotiated ready).
 Proof.
-  induction k as [|k IH]; intros negotiated b Hb Ht; [lia|]. cbn [init_loop].
+  induction k as [|k IH]; intros negotiated ready b Hb Ht; [lia|]. cbn [init_loop].
   unfold get_bits, call. cbn [bind]. constructor. intro bits.
   assert (HR : forall f ft, fits b (run_feature n false f ft [])) by (intros; apply run_feature_fits; cbn; lia).
   destruct force as [[i fti]|].
   - (* forced STARTTLS: required, the loop ends after it *)
     constructor. intro v. destruct v; try constructor.
     destruct (f =? i); [|constructor]. cbn [bind]. apply fits_bind; [apply HR|].
-    intro o. destruct (snd o); constructor.
+    intro o. cbv zeta. destruct (snd o); constructor.
   - destruct (filter (candidate cfg negotiated bits) (fl_cache l)) as [|e cands] eqn:Ef.
     + cbn [bind]. constructor.
     + constructor. intro v. destruct v; try constructor.
@@ -159,7 +159,7 @@ Proof.
       destruct (nth_error (c_feats cfg) f) as [ft|]; [|constructor].
       destruct (negb req || forallb (fun e0 : nat * bool => snd e0) (e :: cands)); [|constructor].
       cbn [bind]. apply fits_bind; [apply HR|].
-      intro o. destruct (snd o); try constructor. destruct req; [constructor|].
+      intro o. cbv zeta. destruct (snd o); try constructor. destruct req; [constructor|].
       apply IH; [exact Hb|]. rewrite <- Ef in E1.
       pose proof (todo_decreases cfg l negotiated bits f false E1). lia.
 Qed.
@@ -176,35 +176,35 @@ Proof.
   destruct t as [c| | | |]; try constructor. destruct c; try constructor.
   apply fits_bind; [apply read_children_fits; lia|].
   intro l. unfold get_bits. cbn [bind]. constructor. intro bits.
-  assert (HL : forall force, fits b' (init_loop (S (length (fl_cache l))) n cfg l force [])).
+  assert (HL : forall force, fits b' (init_loop (S (length (fl_cache l))) n cfg l force [] false)).
   { intro force. apply init_loop_fits; [lia|]. pose proof (todo_le l []). lia. }
   destruct (find_starttls (c_feats cfg) 0) as [[i fti]|].
   - destruct (first && negb match cache_find i (fl_cache l) with Some _ => true | None => false end
               && negb (has bits st_Secure) && neg_of fti); [apply HL|].
-    destruct (fl_total l =? 0); [constructor|]. destruct (fl_cache l) eqn:Ec; [constructor|].
-    rewrite <- Ec in HL |- *. apply HL.
-  - destruct (fl_total l =? 0); [constructor|]. destruct (fl_cache l) eqn:Ec; [constructor|].
-    rewrite <- Ec in HL |- *. apply HL.
+    destruct (fl_total l =? 0); [constructor|]. destruct (fl_allowed l =? 0); [constructor | apply HL].
+  - destruct (fl_total l =? 0); [constructor|]. destruct (fl_allowed l =? 0); [constructor | apply HL].
 Qed.
 
 (* ------------------------------------------------------------------ the receiving side's selection loop *)
 
-Lemma recv_loop_fits cfg l : forall n negotiated b, b + 2 < n -> fits b (recv_loop n cfg l negotiated).
+Lemma recv_loop_fits cfg l : forall n negotiated ready b, b + 2 < n -> fits b (recv_loop n cfg l negotiated ready).
 Proof.
-  induction n as [|n IH]; intros negotiated b Hb; [lia|]. cbn [recv_loop].
+  induction n as [|n IH]; intros negotiated ready b Hb; [lia|]. cbn [recv_loop].
   constructor. intros t b' Hb'. destruct t as [c| | | |]; try constructor.
   assert (HR : forall f ft pre, length pre <= 2 -> fits b' (run_feature n true f ft pre))
     by (intros; apply run_feature_fits; lia).
-  assert (HI : forall neg, fits b' (recv_loop n cfg l neg)) by (intro; apply IH; lia).
+  assert (HI : forall neg rdy, fits b' (recv_loop n cfg l neg rdy)) by (intros; apply IH; lia).
   assert (Hrest : forall f pre, length pre <= 2 ->
             fits b' (bits <- get_bits ;;
                      match cache_find f (fl_cache l), nth_error (c_feats cfg) f with
                      | Some req, Some ft =>
                          if negb (mem f negotiated) && neg_of ft && allowed ft bits then
                            o <- run_feature n true f ft pre ;;
+                           let ready' := ready || has (fst o) st_Ready in
                            match snd o with
-                           | RSNone => if req then Ret (after_loop l o) else recv_loop n cfg l (f :: negotiated)
-                           | _ => Ret o
+                           | RSNone => if req then Ret (after_loop l ready' o)
+                                       else recv_loop n cfg l (f :: negotiated) ready'
+                           | _ => Ret (after_loop l ready' o)
                            end
                          else Fail
                      | _, _ => Fail
@@ -214,7 +214,7 @@ Proof.
     destruct (nth_error (c_feats cfg) f) as [ft|]; [|constructor].
     destruct (negb (mem f negotiated) && neg_of ft && allowed ft bits); [|constructor].
     apply fits_bind; [apply HR; exact Hp|].
-    intro o. destruct (snd o); try constructor. destruct req; [constructor | apply HI]. }
+    intro o. cbv zeta. destruct (snd o); try constructor. destruct req; [constructor | apply HI]. }
   apply fits_bind2 with (R := fun sel : nat * list tok => length (snd sel) <= 2).
   - destruct c; try constructor.
     apply fits_bind; [apply trim_space_fits; lia|]. intro t2. destruct t2 as [c2| | | |]; try constructor.
@@ -251,7 +251,7 @@ Proof.
 Qed.
 
 (* a negotiator call reads a token before it returns *)
-Lemma recv_loop_eats n cfg l negotiated : eats (recv_loop n cfg l negotiated).
+Lemma recv_loop_eats n cfg l negotiated ready : eats (recv_loop n cfg l negotiated ready).
 Proof. destruct n; cbn [recv_loop]; constructor. Qed.
 
 Lemma comp_header_eats n fp : eats (comp_header n fp).
